@@ -524,3 +524,365 @@ def norm_time(st, v):
     n = dt_of_seconds(s)
     st.assume(dt_seconds(n) == s)
     return sym.SOpaque('datetime_aware', n)
+
+
+# ---------------------------------------------------------------- field tables and arrays (grammar 4.2.5.5 + RabbitMQ errata)
+# Abstract sequences (python lists / sorted dict entries / wire entry lists): uninterpreted, unfolded one step at a time.
+seq_nil = z3.Function('seq_nil', Obj, z3.BoolSort())
+seq_head = z3.Function('seq_head', Obj, Obj)              # the element (list) / the value (entry list)
+seq_key = z3.Function('seq_key', Obj, sym.StrS)           # the key of the first entry (entry lists)
+seq_tail = z3.Function('seq_tail', Obj, Obj)
+seq_len = z3.Function('seq_len', Obj, z3.IntSort())
+list_items = z3.Function('list_items', Obj, Obj)          # python list -> its element sequence
+dict_sorted = z3.Function('dict_sorted', Obj, Obj)        # dict -> entries in ascending key order (A4: sorted(d.items()))
+dict_inserted = z3.Function('dict_inserted', Obj, Obj)    # dict -> entries in insertion order (what .items() yields)
+enc_value = z3.Function('enc_value', Obj, z3.BoolSort(), sym.BytesS)      # tag octet + value
+value_ok = z3.Function('value_ok', Obj, z3.BoolSort(), z3.BoolSort())      # encodable field value
+enc_items = z3.Function('enc_items', Obj, z3.BoolSort(), sym.BytesS)      # concatenated encodings of a value sequence
+items_ok = z3.Function('items_ok', Obj, z3.BoolSort(), z3.BoolSort())
+enc_entries = z3.Function('enc_entries', Obj, z3.BoolSort(), sym.BytesS)  # (short-string name, value)* of an entry sequence
+entries_ok = z3.Function('entries_ok', Obj, z3.BoolSort(), z3.BoolSort())
+key_ok = z3.Function('key_ok', sym.StrS, z3.BoolSort())                    # name encodable as a short string after truncation
+KEY_MAX = 128
+
+
+def seq_facts(st, s):
+    key = ('seq', s.get_id())
+    if key in st.facts_done:
+        return
+    st.facts_done.add(key)
+    st.keep.append(s)
+    st.assume(z3.And(seq_len(s) >= 0, seq_nil(s) == (seq_len(s) == 0),
+                     z3.Implies(z3.Not(seq_nil(s)), seq_len(seq_tail(s)) == seq_len(s) - 1)))
+
+
+def trunc_key(st, k):
+    """Field names longer than 128 characters are truncated (documented, logged)."""
+    if isinstance(k, str):
+        return k[:KEY_MAX]
+    return st.str_slice_prefix(k, KEY_MAX) if not st.must(sym.nchars(st.str_term(k)) <= KEY_MAX) else k
+
+
+def unfold_entries(st, s, legacy):
+    """enc_entries(s) for a non-empty s: name, value, then the rest (one unfolding instance)."""
+    lg = sym.B(legacy)
+    seq_facts(st, s)
+    seq_facts(st, seq_tail(s))
+    whole = st.new_chunk(term=enc_entries(s, lg))
+    key = sym.SStr(seq_key(s))
+    st.str_facts(key.t)
+    k128 = trunc_key_term(st, key)
+    name_ok = key_ok(seq_key(s))
+    st.assume(name_ok == z3.And(sym.encodable(k128.t if isinstance(k128, sym.SStr) else st.str_term(k128)),
+                                sym.blen(sym.utf8(st.str_term(k128))) <= 255))
+    st.assume(entries_ok(s, lg) == z3.And(name_ok, value_ok(seq_head(s), lg), entries_ok(seq_tail(s), lg)))
+    return whole, k128
+
+
+def trunc_key_term(st, key):
+    """The truncated name as a Str term without branching: prefix when longer than 128 characters."""
+    t = st.str_term(key)
+    p = sym.str_prefix(t, z3.IntVal(KEY_MAX))
+    st.str_facts(p)
+    st.assume(z3.And(z3.Implies(sym.nchars(t) <= KEY_MAX, p == t),
+                     z3.Implies(sym.nchars(t) > KEY_MAX, sym.nchars(p) == KEY_MAX),
+                     z3.Implies(sym.encodable(t), sym.encodable(p)), sym.blen(sym.utf8(p)) <= sym.blen(sym.utf8(t))))
+    return sym.SStr(p)
+
+
+def refine_entries(st, s, legacy):
+    """Refine the chunk enc_entries(s) of a non-empty s into [name][value][rest]; returns the three parts."""
+    lg = sym.B(legacy)
+    whole, k128 = unfold_entries(st, s, legacy)
+    if whole.key() not in st.refine:
+        name = short_string(st, k128)
+        val = st.new_chunk(term=enc_value(seq_head(s), lg))
+        rest = st.new_chunk(term=enc_entries(seq_tail(s), lg))
+        st.refine_chunk(whole, list(st.to_rope(name).segs) + [val, rest])
+    return whole
+
+
+def refine_items(st, s, legacy):
+    lg = sym.B(legacy)
+    seq_facts(st, s)
+    seq_facts(st, seq_tail(s))
+    whole = st.new_chunk(term=enc_items(s, lg))
+    st.assume(items_ok(s, lg) == z3.And(value_ok(seq_head(s), lg), items_ok(seq_tail(s), lg)))
+    if whole.key() not in st.refine:
+        st.refine_chunk(whole, [st.new_chunk(term=enc_value(seq_head(s), lg)), st.new_chunk(term=enc_items(seq_tail(s), lg))])
+    return whole
+
+
+def nil_facts(st, s, legacy):
+    """An empty sequence encodes to nothing and is trivially encodable."""
+    lg = sym.B(legacy)
+    seq_facts(st, s)
+    for f, okf in ((enc_items, items_ok), (enc_entries, entries_ok)):
+        c = st.new_chunk(term=f(s, lg))
+        st.assume(z3.Implies(seq_nil(s), z3.And(c.len == 0, okf(s, lg))))
+
+
+ENC_ARRAY_UNFOLD = 'enc_array(l) == be4(len X) ++ X with X == enc_items(list_items(l)); array_encodable(l) == items_ok(...) and len X < 2^32'
+
+
+def array_bytes(st, l, legacy):
+    """The encoding of a python list as a field array: 4-octet length, then the values."""
+    lg = sym.B(legacy)
+    t = enc_array(l.t, lg)
+    c = st.new_chunk(term=t)
+    key = ('array_bytes', t.get_id())
+    if key not in st.facts_done:
+        st.facts_done.add(key)
+        items = list_items(l.t)
+        seq_facts(st, items)
+        nil_facts(st, items, legacy)
+        body = st.new_chunk(term=enc_items(items, lg))
+        ls = [st.new_byte('alen') for _ in range(4)]
+        st.refine_chunk(c, ls + [body])
+        st.assume(z3.And(sym.I(uint(ls)) == body.len, array_encodable(l.t, lg) == z3.And(items_ok(items, lg), body.len < 2 ** 32)))
+    return SBytes([c])
+
+
+def table_unfold(st, d, legacy):
+    """enc_table(d) == be4(len X) ++ X with X == enc_entries(dict_sorted(d)) (sorted name/type/value triples)."""
+    lg = sym.B(legacy)
+    t = enc_table(d.t, lg)
+    c = st.new_chunk(term=t)
+    key = ('table_unfold', t.get_id())
+    if key not in st.facts_done:
+        st.facts_done.add(key)
+        es = dict_sorted(d.t)
+        seq_facts(st, es)
+        nil_facts(st, es, legacy)
+        from pyvc.contract import obj_nonempty
+        st.assume(obj_nonempty(d.t) == z3.Not(seq_nil(es)))
+        body = st.new_chunk(term=enc_entries(es, lg))
+        if c.key() in st.refine:      # table_bytes was here first: [4 length octets][tbody]
+            segs = st.refine[c.key()]
+            st.refine_chunk(segs[4], [body])
+            ls = segs[:4]
+        else:
+            ls = [st.new_byte('tlen') for _ in range(4)]
+            st.refine_chunk(c, ls + [body])
+            st.facts_done.add(('table_bytes', t.get_id()))
+        st.assume(z3.And(sym.I(uint(ls)) == body.len,
+                         table_encodable(d.t, lg) == z3.And(entries_ok(es, lg), body.len < 2 ** 32)))
+    return SBytes([c])
+
+
+# ---------------------------------------------------------------- decimals (grammar: scale octet + signed 32-bit unscaled value)
+dec_scale = z3.Function('dec_scale', Obj, z3.IntSort())          # number of decimal places (negated exponent, >= 0)
+dec_unscaled = z3.Function('dec_unscaled', Obj, z3.IntSort())    # the unscaled integer: value == unscaled / 10^scale
+dec_finite = z3.Function('dec_finite', Obj, z3.BoolSort())
+
+
+def mk_decimal(unscaled, scale):
+    """The decimal with this unscaled value and number of places (concrete: a real Decimal)."""
+    if isinstance(unscaled, int) and isinstance(scale, int):
+        import decimal
+        return decimal.Decimal(unscaled).scaleb(-scale)
+    return sym.SOpaque('decimal', decimal_of(sym.I(unscaled), sym.I(scale)))
+
+
+def decimal_ok(t):
+    return z3.And(dec_finite(t), dec_scale(t) >= 0, dec_scale(t) <= 255,
+                  dec_unscaled(t) >= -2 ** 31, dec_unscaled(t) <= 2 ** 31 - 1)
+
+
+def decimal_bytes(st, v):
+    return cat(st, be(st, 1, SInt(dec_scale(v.t))), sbe(st, 4, SInt(dec_unscaled(v.t))))
+
+
+# ---------------------------------------------------------------- reference decoder for field values (19 type tags)
+wf_value = z3.Function('wf_value', sym.BytesS, z3.BoolSort())       # a grammar-valid field value (tag + value)
+val_of = z3.Function('val_of', sym.BytesS, Obj)                      # the python value it denotes
+float_obj = z3.Function('float_obj', sym.FloatS, Obj)
+
+
+def parse_array(st, rest):
+    a = peek(st, rest, 4)
+    if a is None:
+        return None
+    n = uint(a)
+    total = mk_int(sym.I(n) + 4)
+    if not st.branch(sym.I(blen(st, rest)) >= sym.I(total), 'spec:array-present'):
+        return None
+    if isinstance(n, int):
+        if n == 0:
+            return 4, [], True
+    elif st.branch(sym.I(n) == 0, 'spec:array-empty'):
+        return 4, [], True
+    w = st.name_rope(st.to_rope(sub(st, rest, 0, total)).segs, 'warray')
+    return total, sym.SOpaque('list', dec_array(w.t)), wf_array(w.t)
+
+
+FIXED_TAGS = {   # tag -> (width, signed, python type)
+    b'b': (1, True), b'B': (1, False), b's': (2, True), b'u': (2, False), b'I': (4, True), b'i': (4, False),
+    b'l': (8, True), b'L': (8, True),
+}
+
+
+def parse_value(st, rope):
+    """Reference reading of one field value at the head of `rope` (any octets):
+    -> (value, consumed, condition) | None (octets missing) | 'unknown-tag'."""
+    from pyvc import lib
+    a = peek(st, rope, 1)
+    if a is None:
+        return None
+    tag = a[0]
+    rest = sub(st, rope, 1, None)
+    if not isinstance(tag, int):
+        for t in sorted(set(list(b'tbBsuIilLfdDSATFVx') + [0])):
+            if st.branch(sym.I(tag) == t, 'spec:tag-%02x' % t):
+                tag = t
+                break
+        else:
+            return 'unknown-tag'
+    tb = bytes([tag])
+    if tb in FIXED_TAGS:
+        width, signed = FIXED_TAGS[tb]
+        b = peek(st, rest, width)
+        if b is None:
+            return None
+        return st.from_bytes(list(b), signed), 1 + width, True
+    if tb == b't':
+        b = peek(st, rest, 1)
+        if b is None:
+            return None
+        v = (b[0] != 0) if isinstance(b[0], int) else sym.mk_bool(sym.I(b[0]) != 0)
+        return v, 2, True
+    if tb in (b'f', b'd'):
+        width = 4 if tb == b'f' else 8
+        b = peek(st, rest, width)
+        if b is None:
+            return None
+        if all(isinstance(x, int) for x in b):
+            import struct
+            return struct.unpack('>f' if width == 4 else '>d', bytes(b))[0], 1 + width, True
+        nm = st.name_rope(list(b), 'fbytes')
+        return sym.SFloat((lib.f32_of if width == 4 else lib.f64_of)(nm.t)), 1 + width, True
+    if tb == b'D':
+        b = peek(st, rest, 5)
+        if b is None:
+            return None
+        return mk_decimal(st.from_bytes(list(b[1:5]), True), uint(b[0:1])), 6, True
+    if tb in (b'S', b'x'):
+        b = peek(st, rest, 4)
+        if b is None:
+            return None
+        n = uint(b)
+        total = mk_int(sym.I(n) + 4)
+        if not st.branch(sym.I(blen(st, rest)) >= sym.I(total), 'spec:string-present'):
+            return None
+        k = sub(st, rest, 4, total)
+        if tb == b'x':
+            return st.mk_bytes(st.to_rope(k).segs, True), mk_int(sym.I(total) + 1), True
+        ok = utf8_ok(st, k)
+        if ok is True or (ok is not False and st.branch(ok, 'spec:longstr-is-utf8')):
+            return utf8_str(st, k), mk_int(sym.I(total) + 1), True
+        return k, mk_int(sym.I(total) + 1), True
+    if tb == b'T':
+        b = peek(st, rest, 8)
+        if b is None:
+            return None
+        ts = sym.I(uint(b))
+        st.assume(z3.Implies(z3.And(ts >= 0, ts <= 253402300799), dt_representable(ts)))
+        return (sym.SOpaque('datetime_aware', z3.If(ts <= 0xFFFFFFFF, dt_of_seconds(ts), dt_of_millis(ts))), 9,
+                dt_representable(ts))
+    if tb == b'F':
+        r = parse_table(st, rest)
+        if r is None:
+            return None
+        total, value, cond = r
+        return value, mk_int(sym.I(total) + 1), cond
+    if tb == b'A':
+        r = parse_array(st, rest)
+        if r is None:
+            return None
+        total, value, cond = r
+        return value, mk_int(sym.I(total) + 1), cond
+    if tb in (b'V', b'\x00'):
+        return (None, 1, True)
+    return 'unknown-tag'
+
+
+# ---------------------------------------------------------------- wire-side tables / arrays as entry sequences (grammar side)
+w_items = z3.Function('w_items', sym.BytesS, Obj)            # a grammar-valid array encoding -> its value sequence
+w_entries = z3.Function('w_entries', sym.BytesS, Obj)        # a grammar-valid table encoding -> its entry sequence
+w_val = z3.Function('w_val', Obj, sym.BytesS)                # first element / entry of a wire sequence: its value octets (tag + value)
+w_name = z3.Function('w_name', Obj, sym.BytesS)              # first entry: the octets of its name (valid UTF-8, at most 255)
+w_items_bytes = z3.Function('w_items_bytes', Obj, sym.BytesS)
+w_entries_bytes = z3.Function('w_entries_bytes', Obj, sym.BytesS)
+dict_set = z3.Function('dict_set', Obj, sym.StrS, Obj, Obj)
+list_snoc = z3.Function('list_snoc', Obj, Obj, Obj)
+apply_entries = z3.Function('apply_entries', Obj, Obj, Obj)  # fold: entries applied (in order) to a dict
+append_items = z3.Function('append_items', Obj, Obj, Obj)    # fold: values appended (in order) to a list
+EMPTY_LIST = z3.Const('empty_list', Obj)
+value_obj = z3.Function('value_obj', sym.BytesS, Obj)        # python value of a wire value, as an abstract object
+
+
+def w_unfold_items(st, ws):
+    """WI(ws) for non-empty ws == value octets ++ WI(tail); appended(ws, L) unfolds one step."""
+    seq_facts(st, ws)
+    seq_facts(st, seq_tail(ws))
+    whole = st.new_chunk(term=w_items_bytes(ws))
+    v = st.new_chunk(term=w_val(ws))
+    st.assume(z3.And(wf_value(v.t), v.len >= 1))
+    if whole.key() not in st.refine:
+        st.refine_chunk(whole, [v, st.new_chunk(term=w_items_bytes(seq_tail(ws)))])
+    return v
+
+
+def w_unfold_entries(st, ws):
+    seq_facts(st, ws)
+    seq_facts(st, seq_tail(ws))
+    whole = st.new_chunk(term=w_entries_bytes(ws))
+    k = st.new_chunk(term=w_name(ws))
+    v = st.new_chunk(term=w_val(ws))
+    klen = st.new_byte('klen')
+    st.assume(z3.And(sym.utf8_valid(k.t), k.len == klen, wf_value(v.t), v.len >= 1))
+    if whole.key() not in st.refine:
+        st.refine_chunk(whole, [klen, k, v, st.new_chunk(term=w_entries_bytes(seq_tail(ws)))])
+    return k, v
+
+
+def w_nil_facts(st, ws):
+    seq_facts(st, ws)
+    for f in (w_items_bytes, w_entries_bytes):
+        c = st.new_chunk(term=f(ws))
+        st.assume(z3.And(z3.Implies(seq_nil(ws), c.len == 0), z3.Implies(z3.Not(seq_nil(ws)), c.len >= 1)))
+
+
+def wf_table_unfold(st, w):
+    """A grammar-valid table W == be4(L) ++ WE(w_entries(W)), L == len WE; dec_table(W) == apply_entries(w_entries(W), {})."""
+    c = st.new_chunk(term=w)
+    key = ('wf_table', w.get_id())
+    if key not in st.facts_done:
+        st.facts_done.add(key)
+        ws = w_entries(w)
+        w_nil_facts(st, ws)
+        body = st.new_chunk(term=w_entries_bytes(ws))
+        if c.key() not in st.refine:
+            ls = [st.new_byte('tlen') for _ in range(4)]
+            st.refine_chunk(c, ls + [body])
+        else:
+            ls = st.expand([c])[:4]
+            if st.must(body.len == c.len - 4):
+                pass
+        st.assume(z3.And(sym.I(uint(ls)) == body.len, dec_table(w) == apply_entries(ws, EMPTY_DICT)))
+    return c
+
+
+def wf_array_unfold(st, w):
+    c = st.new_chunk(term=w)
+    key = ('wf_array', w.get_id())
+    if key not in st.facts_done:
+        st.facts_done.add(key)
+        ws = w_items(w)
+        w_nil_facts(st, ws)
+        body = st.new_chunk(term=w_items_bytes(ws))
+        ls = [st.new_byte('alen') for _ in range(4)]
+        if c.key() not in st.refine:
+            st.refine_chunk(c, ls + [body])
+        st.assume(z3.And(sym.I(uint(ls)) == body.len, dec_array(w) == append_items(ws, EMPTY_LIST)))
+    return c
